@@ -45,6 +45,18 @@ static void put_i64(long long v)
 }
 static void put_str(const String& s) { vh::puthex((const unsigned char*)(const char*)s, s.length()); }
 
+// a block window ++ tail in one exactly sized allocation (tail "-": the allocation ends with the window); a String
+// attached to the window does not own its bytes and has no terminator of its own behind them
+static char* block2(const char* a, const char* tl, size_t& n)
+{
+  size_t nt; unsigned char* w = exact(a, n); unsigned char* t = exact(tl, nt);
+  char* b = (char*)malloc(n + nt);
+  if(n) memcpy(b, w, n);
+  if(nt) memcpy(b + n, t, nt);
+  free(w); free(t);
+  return b;
+}
+
 static void op(long c, long, vh::Tok& t)
 {
   const char* o = t.v[0];
@@ -74,6 +86,21 @@ static void op(long c, long, vh::Tok& t)
     put_u64(Unicode::isValid((const char*)d, n) ? 1 : 0); putchar(' ');
     String s((const char*)d, n); free(d);
     put_u64(Unicode::isValid(s) ? 1 : 0);            // the String overload (Unicode.hpp:154)
+  } else if(!strcmp(o, "u8deca") || !strcmp(o, "u8valida")) {
+    // the String overloads on a String ATTACHED to the window of an exactly sized block window ++ tail
+    size_t n; char* b = block2(a, t.n > 2 ? t.v[2] : "-", n);
+    { String at; at.attach(b, n);
+      if(o[2] == 'd') put_u64(Unicode::fromString(at)); else put_u64(Unicode::isValid(at) ? 1 : 0); }
+    free(b);
+  } else if(!strcmp(o, "tointa") || !strcmp(o, "touinta") || !strcmp(o, "toint64a") || !strcmp(o, "touint64a")) {
+    // the member conversions on an attached String (Process::Arguments hands such Strings to callers)
+    size_t n; char* b = block2(a, t.n > 2 ? t.v[2] : "-", n);
+    { String at; at.attach(b, n);
+      if(!strcmp(o, "tointa")) put_i64(at.toInt());
+      else if(!strcmp(o, "touinta")) put_u64(at.toUInt());
+      else if(!strcmp(o, "toint64a")) put_i64(at.toInt64());
+      else put_u64(at.toUInt64()); }
+    free(b);
   } else if(!strcmp(o, "u8rt")) {
     String s = Unicode::toString((uint32)parse_u64(a));
     // exact-size copy of the encoder's output for the two readers
